@@ -367,6 +367,7 @@ func runSession(w *world, sp Spec, dir string) (tr Trace) {
 	os.WriteFile(rc, []byte(sp.Inputrc), 0o644)
 	os.Setenv("INPUTRC", rc)
 	os.Setenv("HOME", dir)
+	os.Setenv("TMPDIR", dir) // the library writes the buffer it hands to $EDITOR to a temporary file and leaves it there
 
 	var rl *readline.Shell
 	func() {
